@@ -118,39 +118,46 @@ structure LoopSt where
   hs : List ExtHdr        -- ext_headers_ so far
 deriving Repr
 
+/-- the jumbogram test inside the extension-header branch: with `actual_payload_length == 0` and a hop-by-hop header the
+    option area (`InputMemoryStream options(stream.pointer(), payload_size)`) is searched for the Jumbo Payload option -/
+def jumboAdjust (apl cur : Nat) (c : Cursor) (payloadSize : Nat) : Out Nat :=
+  if apl == 0 && cur == HOP_BY_HOP then
+    (jumboWalk (payloadSize + 1) ⟨c.mem, payloadSize⟩) >>= fun r => pure (match r with | some v => v | none => apl)
+  else pure apl
+
+/-- one round of the extension-header branch: the stream behind the header and the new loop state -/
+def extStep (c : Cursor) (st : LoopSt) : Out (Cursor × LoopSt) := do
+  let (extType, c) ← c.readU8                                     -- stream.read<uint8_t>()
+  let (l, c) ← c.readU8                                           -- stream.read<uint8_t>()
+  let extSize := (l + 1) * 8
+  let payloadSize := extSize - 2
+  if !c.canRead payloadSize then .throw .malformedPacket else do
+  -- ext_header(current_header, payload_size, stream.pointer()): memcpy of payload_size bytes from the raw pointer
+  let d ← c.peek "IPv6::IPv6 ext_header(current_header, payload_size, stream.pointer())" 0 payloadSize
+  let apl ← jumboAdjust st.apl st.cur c payloadSize
+  let c' ← c.skip payloadSize                                     -- stream.skip(payload_size)
+  pure (c', ⟨extType, (apl + 4294967296 - extSize) % 4294967296,  -- actual_payload_length -= ext_size (uint32_t)
+             st.frag || st.cur == FRAGMENT, st.hs ++ [⟨st.cur, payloadSize, d⟩]⟩)
+
+/-- the payload branch: `RawPDU(stream.pointer(), actual_payload_length)` behind a fragment header, else
+    `pdu_from_flag(current_header, stream.pointer(), actual_payload_length, false)`, RawPDU when that knows no class -/
+def payloadStep (c : Cursor) (st : LoopSt) : Out (List ExtHdr × Nat × Inner) :=
+  if !c.canRead st.apl then .throw .malformedPacket else do
+  let pb ← c.peek "IPv6::IPv6 inner(stream.pointer(), actual_payload_length)" 0 st.apl
+  if st.frag then .ok (st.hs, st.cur, .raw pb)
+  else match Tags.classOfIpProto st.cur with
+    | some cls => .ok (st.hs, st.cur, .cls cls pb false)
+    | none => .ok (st.hs, st.cur, .raw pb)
+
 /-- the `while (stream)` loop: extension headers (each round consumes at least 8 bytes), then the payload.
     Result: headers, final `current_header`, inner PDU. -/
 def parseLoop : Nat → Cursor → LoopSt → Out (List ExtHdr × Nat × Inner)
   | 0, _, _ => .fault "IPv6::IPv6 header loop: out of fuel"
   | fuel + 1, c, st =>
-    if !c.toBool then .ok (st.hs, st.cur, .none) else
-    if isExtensionHeader st.cur && st.cur != NO_NEXT_HEADER then do
-      let frag := st.frag || st.cur == FRAGMENT
-      let (extType, c) ← c.readU8                                   -- stream.read<uint8_t>()
-      let (l, c) ← c.readU8                                         -- stream.read<uint8_t>()
-      let extSize := (l + 1) * 8
-      let payloadSize := extSize - 2
-      if !c.canRead payloadSize then .throw .malformedPacket else
-      -- ext_header(current_header, payload_size, stream.pointer()): memcpy of payload_size bytes from the raw pointer
-      let d ← c.peek "IPv6::IPv6 ext_header(current_header, payload_size, stream.pointer())" 0 payloadSize
-      let hs := st.hs ++ [⟨st.cur, payloadSize, d⟩]
-      let apl ←
-        if st.apl == 0 && st.cur == HOP_BY_HOP then do
-          -- InputMemoryStream options(stream.pointer(), payload_size)
-          let r ← jumboWalk (payloadSize + 1) ⟨c.mem, payloadSize⟩
-          pure (match r with | some v => v | none => st.apl)
-        else pure st.apl
-      let apl := (apl + 4294967296 - extSize) % 4294967296          -- actual_payload_length -= ext_size (uint32_t)
-      let c ← c.skip payloadSize
-      parseLoop fuel c ⟨extType, apl, frag, hs⟩
-    else
-      if !c.canRead st.apl then .throw .malformedPacket else do
-      -- RawPDU(stream.pointer(), actual_payload_length) / pdu_from_flag(current_header, stream.pointer(), actual_payload_length)
-      let pb ← c.peek "IPv6::IPv6 inner(stream.pointer(), actual_payload_length)" 0 st.apl
-      if st.frag then .ok (st.hs, st.cur, .raw pb)
-      else match Tags.classOfIpProto st.cur with
-        | some cls => .ok (st.hs, st.cur, .cls cls pb false)
-        | none => .ok (st.hs, st.cur, .raw pb)
+    if !c.toBool then .ok (st.hs, st.cur, .none)
+    else if isExtensionHeader st.cur && st.cur != NO_NEXT_HEADER then
+      (extStep c st) >>= fun (c', st') => parseLoop fuel c' st'
+    else payloadStep c st
 
 /-- `IPv6::IPv6(const uint8_t* buffer, uint32_t total_sz)` -/
 def parse (b : Bytes) : Out (Ipv6 × Inner) := do
